@@ -328,3 +328,91 @@ def _mk_idle(threaded):
 
 _mk_idle(True)
 _mk_idle(False)
+
+
+# ---------------------------------------------------------------- Scheduler.synchronized(): one Synchronizer PER THREAD
+# (added 2026-09-25 after seeded change C07_6 cached a single Synchronizer on the scheduler: two foreign threads then share one
+# enter counter, and the second walks into the section while the first is still waiting for the cooperative slice to end)
+#
+# Built by the real Scheduler.__init__ (select hub, lock and thread-local storage are callees), so the contract does not name
+# the private field the Synchronizer is kept in.  threading.local() is modelled as what it is for sequential code - an object
+# whose attributes are those of the CURRENT thread: `Threads.run_as(t)` swaps the attribute set of every thread-local object
+# created so far (natively: the call really runs on another thread).
+
+import threading as _threading
+from pyvc.api import native
+
+
+class Local(object):
+  pass
+
+
+class ThreadLocalSpec(CallSpec):
+  def __init__(self):
+    CallSpec.__init__(self, "assumed", envelope="threading.local(): an object whose attributes are per thread (the harness switches "
+                                                "the attribute set when it switches the current thread)")
+
+  def apply(self, I, f, args, kws, st, ctx, k, node):
+    ref = st.alloc("obj", Local, {})
+    st.ghost["tl_objs"] = tuple(st.ghost.get("tl_objs", ())) + (ref,)
+    return k(st, ref)
+
+
+class _Threads(object):
+  @native
+  def run_as(self, st, tid):
+    cur = st.ghost.get("tl_cur", 0)
+    saved = dict(st.ghost.get("tl_saved", {}))
+    for ref in st.ghost.get("tl_objs", ()):
+      o = st.obj(ref)
+      saved[(cur, ref.oid)] = dict(o.data)
+      o.data = dict(saved.get((tid, ref.oid), {}))
+    st.ghost["tl_saved"] = saved
+    st.ghost["tl_cur"] = tid
+    return None
+
+
+Threads = _Threads()
+
+
+def on_another_thread(f):
+  out = []
+  t = _threading.Thread(target=lambda: out.append(f()))
+  t.start()
+  t.join(20)
+  return out[0]
+
+
+@unit(P, target=RC + "Scheduler.__init__ / Scheduler.synchronized")
+def every_thread_gets_its_own_synchronizer(b):
+  hub = b.raw_new(Hub)
+  sym = b.mode == "sym"
+  cs = {}
+  if sym:
+    cs = {RC + "SelectHub": CallSpec("contract", returns=lambda I, st, a, k: hub, envelope="SelectHub(...): the scheduler's hub (C06)"),
+          "_thread:allocate_lock": CallSpec("assumed", returns=lambda I, st, a, k: st.alloc("obj", LockStub, {"trace": None, "name": "lock"}),
+                                     envelope="threading.Lock()"),
+          "_thread:_local": ThreadLocalSpec()}
+  else:
+    R.SelectHub = lambda *a, **k: hub
+  def run():
+    s = Scheduler(isDefaultScheduler=False, startInThread=False, threaded_selecthub=False)
+    a1 = s.synchronized()
+    a2 = s.synchronized()
+    if sym:
+      Threads.run_as(1)
+      b1 = s.synchronized()
+      b2 = s.synchronized()
+      Threads.run_as(0)
+    else:
+      b1, b2 = on_another_thread(lambda: (s.synchronized(), s.synchronized()))
+    a3 = s.synchronized()
+    return (s, a1, a2, a3, b1, b2)
+  return Case(run, [], calls=cs, raises={}, ensures={
+    "a_thread_keeps_getting_the_same_synchronizer_bound_to_this_scheduler":
+      lambda res: type(res[1]) is Synchronizer and res[1].scheduler is res[0] and res[2] is res[1] and res[3] is res[1]
+      and res[5] is res[4],
+    "another_thread_gets_a_synchronizer_of_its_own_with_its_own_enter_counter":
+      lambda res: type(res[4]) is Synchronizer and res[4] is not res[1] and res[4].scheduler is res[0] and res[4].enter == 0,
+  })
+every_thread_gets_its_own_synchronizer.bound = "two threads"
